@@ -7,6 +7,7 @@ import (
 	"go/token"
 	"go/types"
 	"math/big"
+	"strings"
 
 	"golang.org/x/tools/go/ssa"
 )
@@ -139,6 +140,7 @@ func (x *Exec) simple(fr *Frame, st *State, in ssa.Instruction) {
 	case *ssa.Lookup:
 		st.env[v] = x.lookup(fr, st, v)
 	case *ssa.MapUpdate:
+		x.directWrite(fr, st, in, v.Map)
 		m := x.get(st, v.Map)
 		if m.K != KRef {
 			panic(oos("map update on %s value", kindName(m.K)))
@@ -155,6 +157,9 @@ func (x *Exec) simple(fr *Frame, st *State, in ssa.Instruction) {
 			x.guard(fr, st, in, "nil-deref:store", sNot(sEq(p.S, "0")))
 		}
 		x.guardedAccess(fr, st, in, p, true)
+		if ia, isIdx := v.Addr.(*ssa.IndexAddr); isIdx {
+			x.directWrite(fr, st, in, ia.X)
+		}
 		if val.K == KOpaque || val.K == KFunc || val.K == KAddr {
 			// storing an unmodelled value: the location becomes unknown
 			x.storeUnknown(st, p, val)
@@ -861,4 +866,40 @@ func (x *Exec) boxFacts(tag string, id int) {
 		b := "(" + tag + " " + args[0] + ")"
 		return sAnd(sNot(sEq(b, "0")), sEq("("+tag+".inv "+b+")", args[0]), sEq("(iface.tag "+b+")", sInt(int64(id))))
 	})
+}
+
+// directWrite: `opt writes-only-via-callees=Type.field,...` -- the function under contract changes the elements of the slice / the
+// entries of the map held in these fields only by calling its callees (whose contracts say what happens to the structure), never
+// by a store, map update or delete of its own.  container is the SSA value that is indexed / updated: flagged if it is a load of
+// one of the named fields.
+func (x *Exec) directWrite(fr *Frame, st *State, in ssa.Instruction, container ssa.Value) {
+	if fr.depth != 0 || fr.con == nil || fr.con.Opts["writes-only-via-callees"] == "" {
+		return
+	}
+	u, ok := container.(*ssa.UnOp)
+	if !ok || u.Op != token.MUL {
+		return
+	}
+	fa, ok := u.X.(*ssa.FieldAddr)
+	if !ok {
+		return
+	}
+	pt, ok := fa.X.Type().Underlying().(*types.Pointer)
+	if !ok {
+		return
+	}
+	n, ok := pt.Elem().(*types.Named)
+	if !ok {
+		return
+	}
+	stt, ok := n.Underlying().(*types.Struct)
+	if !ok {
+		return
+	}
+	name := n.Obj().Name() + "." + stt.Field(fa.Field).Name()
+	for _, f := range strings.Split(fr.con.Opts["writes-only-via-callees"], ",") {
+		if strings.TrimSpace(f) == name {
+			x.emit(fr, st, x.label(fr.fn, in, "write")+".direct-write:"+name, "discipline", atom("false"), in)
+		}
+	}
 }
